@@ -236,7 +236,7 @@ def t_COMMENT(t):
 
 def t_MCOMMENT(t):
     r'/\*(.|\n)*?\*/'
-    t.lineno += t.value.count('\n')
+    t.lexer.lineno += t.value.count('\n')
     return  # discard token
 
 # These simple tokens must also be defined as functions, in order to control
@@ -382,7 +382,14 @@ class MOFCompileError(Error):
                 parser_token,
                 (lex.LexToken, yacc.YaccProduction))
             mof_ = parser_token.lexer.parser.mof
-            self.args = (parser_token.lexer.lineno,
+            lexpos = _lexpos(parser_token)
+            if lexpos > 0:
+                # The line of the token in error. The lexer may already be
+                # further ahead (lookahead token).
+                lineno = mof_.count('\n', 0, lexpos) + 1
+            else:
+                lineno = parser_token.lexer.lineno
+            self.args = (lineno,
                          _find_column(mof_, parser_token),
                          parser_token.lexer.parser.file,
                          _get_error_context(mof_, parser_token))
